@@ -42,9 +42,13 @@ def ana_module_text(analyses, select):
     specs = list(analyses)
     if select is not None:
         specs = specs + [{"cls": "VSelect", "hooks": {h: None for h in select}}]
+    done = set()
     for a in specs:
+        if a["cls"] in done:
+            continue
+        done.add(a["cls"])
         out.append("class %s(BaseAnalysis):" % a["cls"])
-        out.append("    def __init__(self, tag=%r, **kw):" % a.get("tag", a["cls"]))
+        out.append("    def __init__(self, tag=%r, **kw):" % (a["cls"] if sum(1 for b in specs if b["cls"] == a["cls"]) > 1 else a.get("tag", a["cls"])))
         out.append("        super().__init__()")
         out.append("        self.tag = tag")
         out.append("        self.kw = kw")
@@ -211,6 +215,10 @@ def _run_case(case):
                     rt.end_execution()
                 except BaseException as e:
                     res["end_execution_error"] = repr(e)
+        import signal
+
+        signal.signal(signal.SIGTERM, signal.SIG_DFL)
+        signal.signal(signal.SIGINT, signal.default_int_handler)
         if af.exists():
             af.unlink()
         if ex:
